@@ -17,9 +17,9 @@ const KEYWORDS: [&str; 30] = [
 ];
 
 /// standard constants appended to every program so that replacements can refer to them
-const EXTRA_CONSTS: &str = "    let SA = [1, 2, 3]\n    let SS = \"txt\"\n    let SB = true\n    let SN = [[1, 2], [3]]\n    let SG = Graph {\n        P -> [Q: 2],\n        Q\n    }\n    let SF = 2.5\n";
+const EXTRA_CONSTS: &str = "    let SA = [1, 2, 3]\n    let SS = \"txt\"\n    let SB = true\n    let SN = [[1, 2], [3]]\n    let SG = Graph {\n        P -> [Q: 2],\n        Q\n    }\n    let SF = 2.5\n    let SK = 1\n";
 
-const REPLACEMENTS: [(&str, &str); 41] = [
+const REPLACEMENTS: [(&str, &str); 43] = [
     ("\"str\"", "string"),
     ("SS", "string"),
     ("true", "boolean"),
@@ -61,6 +61,8 @@ const REPLACEMENTS: [(&str, &str); 41] = [
     ("(-true)", "negated-boolean"),
     ("(-SB or true)", "negated-boolean-in-logic"),
     ("range(0, 2, -true)", "range-with-negated-boolean-flag"),
+    ("esc_SK", "compound-name-whose-only-namesake-is-an-escaped-literal"),
+    ("\\esc_SK", "escaped-literal-variable"),
 ];
 
 #[derive(Debug, Clone)]
@@ -110,6 +112,12 @@ fn with_extra_consts(p: &str) -> String {
     } else {
         p.to_string()
     }
+}
+
+/// Every base program also declares the escaped literal variable `\esc_SK` (a variable called
+/// "esc_SK", not a member of a family esc_*).
+fn with_escaped_literal(p: &str) -> String {
+    format!("{}    \\esc_SK as Real(0, 5)\n", if p.ends_with('\n') { p.to_string() } else { format!("{p}\n") })
 }
 
 pub fn perturb(base: &str, rng: &mut ChaCha8Rng) -> Option<(String, &'static str, String)> {
@@ -196,7 +204,15 @@ fn classify(e: &TransformError, source: &str) -> Result<Option<String>, String> 
             let base = name.split('_').next().unwrap_or("");
             let define = source.split("define\n").nth(1).unwrap_or("");
             let computed_family = define.lines().any(|l| l.trim_start().starts_with(&format!("{base}_")) && l.contains(" for "));
-            if literal && !computed_family { Some("UndeclaredVariableDomain(literal-name)".into()) } else { None }
+            // no family of that base name is declared at all (an escaped literal \\base_x is not a family)
+            let family_declared = define.lines().any(|l| l.trim_start().starts_with(&format!("{base}_")));
+            if literal && !computed_family {
+                Some("UndeclaredVariableDomain(literal-name)".into())
+            } else if !family_declared {
+                Some("UndeclaredVariableDomain(no-family-of-that-name-declared)".into())
+            } else {
+                None
+            }
         }
         TransformError::OutOfBounds(_) | TransformError::TooLarge { .. } | TransformError::AlreadyDeclaredDomainVariable(_) => None,
         TransformError::AlreadyDeclaredVariable(_) | TransformError::AlreadyDefined { .. } => None,
@@ -336,7 +352,7 @@ impl Driver for C19 {
                 }
             }
             let _ = prog.consts.iter().any(|(_, v)| is_mixed(v));
-            let base = with_extra_consts(&prog.text_p());
+            let base = with_escaped_literal(&with_extra_consts(&prog.text_p()));
             let (text, label, pos) = if case % 6 == 0 {
                 (base.clone(), "unperturbed", "none".to_string())
             } else {
@@ -410,7 +426,7 @@ impl Driver for C19 {
         }
     }
     fn rule(&self) -> String {
-        "G-data programs (12 construct families, helper constants of every kind added to the where section) with one identifier or number token replaced by a value of another kind: string, boolean, array, nested array, graph, node list, edge list, array element, row, decimal, large integer, zero, negative, len/enumerate/zip calls with right and wrong arity or argument kinds, unknown function, undeclared identifier / compound name, neighbour query for a missing node; one program in six is left unperturbed. Position classes: operand, array index, name index, range bound, iterator, argument, domain bound, where-value. Each text that parses is type-checked (PreModel::create_type_checker) and transformed (PreModel::transform); if the check accepts and the transform fails, the base error is classified: wrong argument type/count, operator not applicable to its operand kinds, unspreadable value, unknown function, statically undeclared variable are type-class; out of range, too large, duplicate declaration, overflow / division by zero on numeric operands, tuple length, missing graph node are data-dependent. non-trivial = accepted program (transformed or failed data-dependently)".into()
+        "G-data programs (12 construct families, helper constants of every kind added to the where section) with one identifier or number token replaced by a value of another kind: string, boolean, array, nested array, graph, node list, edge list, array element, row, decimal, large integer, zero, negative, len/enumerate/zip calls with right and wrong arity or argument kinds, unknown function, undeclared identifier / compound name, neighbour query for a missing node, set functions and range() with wrong argument kinds, negated Booleans, a compound name whose only namesake is an escaped literal variable; one program in six is left unperturbed. Position classes: operand, array index, name index, range bound, iterator, argument, domain bound, where-value. Each text that parses is type-checked (PreModel::create_type_checker) and transformed (PreModel::transform); if the check accepts and the transform fails, the base error is classified: wrong argument type/count, operator not applicable to its operand kinds, unspreadable value, unknown function, statically undeclared variable are type-class; out of range, too large, duplicate declaration, overflow / division by zero on numeric operands, tuple length, missing graph node are data-dependent. non-trivial = accepted program (transformed or failed data-dependently)".into()
     }
     fn thresholds(&self, tier: Tier) -> Thresholds {
         let s = tier.pick(10, 100);
